@@ -129,6 +129,13 @@ func helperGuards(fns []*ssa.Function) map[*ssa.Function]helperGuard {
 					if op != token.GTR || !count[x] {
 						continue
 					}
+					for {
+						cv, isCv := y.(*ssa.Convert)
+						if !isCv {
+							break
+						}
+						y = cv.X
+					}
 					k, lp, isLimit := limitLoadP(y)
 					if !isLimit {
 						continue
@@ -238,6 +245,7 @@ type countGuard struct {
 	disabled []*ssa.BasicBlock // `limit >= 0` If blocks on the same level
 	viaCall  *ssa.Call         // the guard is `if err := helper(level, n); err != nil` (helperGuard summary)
 	lvlParam int               // >= 0: the level is that integer parameter of the function (0-based); else constant
+	narrow   string            // the count is compared after a conversion to this type, which cannot hold every uint32 everywhere
 }
 
 // countGuards finds the limit guards on count (a value set derived by conversion only from the source).
@@ -321,11 +329,28 @@ func countGuards(fn *ssa.Function, count map[ssa.Value]bool, helpers map[*ssa.Fu
 			if !count[x] {
 				continue
 			}
+			// the limit may be converted for the comparison (uint64(limit), behind limit >= 0)
+			for {
+				cv, isCv := y.(*ssa.Convert)
+				if !isCv {
+					break
+				}
+				y = cv.X
+			}
 			k, lp, isLimit := limitLoadP(y)
 			if !isLimit {
 				continue
 			}
 			g := countGuard{block: b, failEdge: edge, level: k, limit: y, lvlParam: lp}
+			// the count must reach the comparison in a type that holds every 32-bit count on every platform
+			// (the type in which the comparison is made; a later widening of a wrapped int to uint64 sign-extends
+			// and still exceeds every limit)
+			if tb, isB := x.Type().Underlying().(*types.Basic); isB {
+				switch tb.Kind() {
+				case types.Int, types.Int8, types.Int16, types.Int32, types.Uint8, types.Uint16:
+					g.narrow = tb.Name()
+				}
+			}
 			// the "limits disabled" test: limit >= 0 on a load of the same level
 			for _, b2 := range fn.Blocks {
 				if eng.BlockIf(b2) == nil {
@@ -620,51 +645,6 @@ func c04(p *core.Program, r *core.Report) {
 				r.OK(rule1, key, pos, true, "the count was checked against the limit inside "+srcName+" before it was returned")
 				continue
 			}
-			// documented exemption: WKB GeometryCollection part loop (also when the loop sits in a helper or function
-			// literal of the package that is handed the count and does nothing with it but bound a loop)
-			loopOnlyCall := func(k string) bool {
-				if !strings.HasPrefix(k, "call:") {
-					return false
-				}
-				for _, sk := range byKind[k] {
-					cl, ok := sk.Instr.(*ssa.Call)
-					if !ok {
-						return false
-					}
-					var callee *ssa.Function
-					if mc, isMC := cl.Call.Value.(*ssa.MakeClosure); isMC {
-						callee, _ = mc.Fn.(*ssa.Function)
-					} else {
-						callee = cl.Call.StaticCallee()
-					}
-					if callee == nil || core.FnPkgPath(topLevel(callee)) != core.FnPkgPath(fn) {
-						return false
-					}
-					for ai, a := range cl.Call.Args {
-						if !taint[a] || ai >= len(callee.Params) {
-							continue
-						}
-						for _, inner := range eng.SizeSinks(eng.IntFlow(callee.Params[ai]), paramSinks) {
-							if inner.Kind != "loop" {
-								return false
-							}
-						}
-					}
-				}
-				return true
-			}
-			if (kind == "loop" || loopOnlyCall(kind)) && short(fn) == "encoding/wkb.Read" && what == "GeometryCollection parts" && len(guards) == 0 {
-				onlyLoops := true
-				for _, k2 := range kinds {
-					if k2 != "loop" && !loopOnlyCall(k2) {
-						onlyLoops = false
-					}
-				}
-				if onlyLoops {
-					r.OK(rule1, key, pos, true, "exempt: the WKB GeometryCollection part count bounds a loop that allocates nothing proportional to it (no make/call sized by it; each iteration consumes >= 5 input bytes); the property's anchor lists only EWKB collections")
-					continue
-				}
-			}
 			bad := ""
 			for _, s := range byKind[kind] {
 				if reach[s.Instr.Block()] {
@@ -679,6 +659,9 @@ func c04(p *core.Program, r *core.Report) {
 				for _, g := range guards {
 					if ok, why := failEdgeReturnsTooLarge(g); !ok {
 						bad = "guard's fail edge: " + why
+					}
+					if g.narrow != "" {
+						bad = "the count is converted to " + g.narrow + " before it is compared with the limit: where " + g.narrow + " has 32 bits or fewer a count of 2^31 or more wraps and passes the test, and the allocation that follows panics"
 					}
 					if g.lvlParam < 0 && g.level != want {
 						bad = fmt.Sprintf("count of %s is tested against MaxGeometryElements[%d], the level table requires %d", what, g.level, want)
